@@ -50,7 +50,9 @@ fn main() {
                 let m = generate_delta(&p_new, &cks, bs).unwrap();
                 let s = generate_delta_streaming(&p_new, &cks, bs).unwrap();
                 let app = |d: &Delta| -> String {
-                    let _ = std::fs::remove_file(&p_out);
+                    // a leftover of an interrupted earlier transfer sits at the output path: longer than anything
+                    // reconstructed here and non-zero everywhere -- the result must not contain any of it
+                    std::fs::write(&p_out, vec![0xEEu8; 3 * (unhex(t[3]).len() + unhex(t[4]).len()) + 777]).unwrap();
                     match apply_delta(&p_old, d, &p_out) {
                         Ok(_) => hex(&std::fs::read(&p_out).unwrap()),
                         Err(_) => "ERR".into(),
@@ -71,7 +73,9 @@ fn main() {
                 std::fs::write(&p_new, unhex(t[4])).unwrap();
                 let cks = compute_checksums(&p_old, bs).unwrap();
                 let s = generate_delta_streaming(&p_new, &cks, bs).unwrap();
-                let _ = std::fs::remove_file(&p_out);
+                // a leftover of an interrupted earlier transfer sits at the output path: longer than anything
+                    // reconstructed here and non-zero everywhere -- the result must not contain any of it
+                    std::fs::write(&p_out, vec![0xEEu8; 3 * (unhex(t[3]).len() + unhex(t[4]).len()) + 777]).unwrap();
                 let a = match apply_delta(&p_old, &s, &p_out) {
                     Ok(_) => hex(&std::fs::read(&p_out).unwrap()),
                     Err(_) => "ERR".into(),
@@ -128,7 +132,9 @@ fn main() {
                 } else {
                     json.into_bytes()
                 };
-                let _ = std::fs::remove_file(&p_out);
+                // a leftover of an interrupted earlier transfer sits at the output path: longer than anything
+                    // reconstructed here and non-zero everywhere -- the result must not contain any of it
+                    std::fs::write(&p_out, vec![0xEEu8; 3 * (unhex(t[3]).len() + unhex(t[4]).len()) + 777]).unwrap();
                 let mut ch = Command::new(&remote)
                     .arg("apply-delta")
                     .arg(&p_old)
